@@ -4,6 +4,7 @@ from __future__ import annotations
 
 import itertools
 
+from ..absint import region_key
 from ..harness import stub_repo_calls
 from ..index import AnalysisError
 from ..kernel import clean, curl_oracle, e_, levi, metric_stub, run_curl, scale_atom
@@ -259,9 +260,8 @@ def _wall_rules(ctx):
                 else:
                     okc = len(inds) == 1 and got.equals(base - Rat.atom(inds[0]) * base)
                     if okc:
-                        key = inds[0][1][1]
-                        name = b.attrs["name"]
-                        okc = key[axis] == ("slice", f"{name}.s", f"{name}.e", "None")
+                        # the slab is the wall's own grid slice, as placed by the scene (one cell thick on `axis`)
+                        okc = inds[0][1][1] == region_key(tuple(slice(lo, hi, None) for lo, hi in b.attrs["_grid_slice_tuple"]))
                 ok = ok and okc
                 detail.append(got.fmt()[:80])
             ctx.ob("R1.6", f"{ci.name}.{own}:{axis}{direction}", ok, f"zeroes exactly the two tangential {F} components on the wall slab and leaves the normal one", detail, "normal unchanged; tangential*(1-1[slab])")
